@@ -569,6 +569,39 @@ def replace_self_rule(rep):
     rep.floor("C13.h", n, 2)
 
 
+def release_purges_user_data_rule(rep):
+    rep.rule("C13.j", "release() leaves no user data behind: the per-document user-data table is keyed by node address and released "
+             "nodes are recycled, so DOMDocumentImpl::callUserDataHandlers must reach its `operation == NODE_DELETED` decision (and "
+             "removeKey under it) on every normal path on which the table exists — whatever the node's records or handlers are; "
+             "a path that leaves earlier lets the next node created at that address inherit the dead node's data")
+    g = core.run_xa([os.path.join(core.REPO, "src/xercesc/dom/impl/DOMDocumentImpl.cpp")], cfg=r"^DOMDocumentImpl::callUserDataHandlers$", flat=False)
+    cfg = guard.Cfg(g.cfg("DOMDocumentImpl::callUserDataHandlers"))
+
+    def is_deleted_test(x):
+        return isinstance(x, list) and len(x) == 4 and x[0] == "b" and x[1] in ("==", "!=") and \
+            any(isinstance(y, list) and y and y[0] == "e" and y[1].endswith("NODE_DELETED") for y in (x[2], x[3]))
+    tests = {bid for bid, i, el in cfg.elements() if guard.mentions(guard.el_sx(el), is_deleted_test)}
+    for bid, b in cfg.blocks.items():
+        if "term" in b and guard.mentions(b["term"].get("cond"), is_deleted_test):
+            tests.add(bid)
+    removes = guard.sites(cfg, lambda c: c[1].endswith("::removeKey"))
+    if not tests or not removes:
+        raise AnalysisBroken("callUserDataHandlers: the NODE_DELETED decision / removeKey call is no longer recognised")
+    table = lambda x: True if (x[0] == "f" and x[1].endswith("::fUserDataTable")) else None
+    seen = guard.reachable(cfg, assume=table, stop=lambda b: b in tests or cfg.throws(b))
+    ok = cfg.exit not in seen
+    rep.ob("C13.j", "callUserDataHandlers@NODE_DELETED", ok, "every normal path with a table reaches the purge decision" if ok else
+           "DOMDocumentImpl::callUserDataHandlers can return, with the user-data table present, without reaching the "
+           "`operation == NODE_DELETED` purge (removeKey): the records of a released node stay in the table under its address",
+           "%s:%s" % (cfg.file, cfg.line_of(min(tests))))
+
+
+def _strip(x):
+    while isinstance(x, list) and x and x[0] == "cast":
+        x = x[2]
+    return x
+
+
 def run(rep):
     f = core.library_facts()
     rep.units.update(os.path.relpath(t, core.REPO) for t in f.tus)
@@ -579,6 +612,7 @@ def run(rep):
     supplementary_names_rule(rep)
     attr_identity_rule(rep)
     replace_self_rule(rep)
+    release_purges_user_data_rule(rep)
     from . import C14
     C14.delete_data_rule(rep, "C13.i")
     from ..engines import arrays
